@@ -319,7 +319,7 @@ def famBne (cfg : Args) : Except String Fam := do
       Fams.bneStat lnF expF fl nt ⟨x, t, w⟩
     outA := fun p =>
       let ce := part p 0 nt; let ex := part p 1 nt; let pos := part p 2 nt
-      if ex.any (· == 0) then .ok "0:" else
+      if ex.all (· == 0) then .ok "0:" else   -- `torch.all(self.num_examples == 0)`: no update yet
       .ok (showVecX ((List.range nt).map fun k => bneCompute lnF (ce.getD k 0) (pos.getD k 0) (ex.getD k 0))) }
 
 /-! ### perplexity (end values evaluated with doubles) -/
